@@ -13,6 +13,17 @@ try:
     p = subprocess.run(["patch", "-p1", "-s", "-d", tmp, "-i", patch], capture_output=True, text=True)
     assert p.returncode == 0, p.stdout + p.stderr
     c = subprocess.run(["python3-vt", "/verif/sa/check.py", pid, "--repo", tmp, "--no-evidence"], capture_output=True, text=True, timeout=900)
+    others = {}
+    if c.returncode != 1:
+        claimed = [x["property_id"] for x in json.load(open("/verif/MANIFEST.json"))["checks"] if x["property_id"] != pid]
+        from concurrent.futures import ThreadPoolExecutor
+        def run(o):
+            r = subprocess.run(["python3-vt", "/verif/sa/check.py", o, "--repo", tmp, "--no-evidence"], capture_output=True, text=True, timeout=900)
+            return o, r.returncode, [l.strip()[:300] for l in r.stdout.splitlines() if "VIOLATION-DETAIL" in l][:2]
+        with ThreadPoolExecutor(8) as ex:
+            for o, rc, det in ex.map(run, claimed):
+                if rc == 1:
+                    others[o] = det
 finally:
     shutil.rmtree(tmp, ignore_errors=True)
 det = [l.strip()[:400] for l in c.stdout.splitlines() if "VIOLATION-DETAIL" in l][:4]
@@ -33,6 +44,8 @@ meta = {
  ],
  "check_exit": c.returncode, "check_report": det,
  "expect": "fire" if c.returncode == 1 else "miss",
+ "also_fire": sorted(others),
+ "also_fire_reports": others,
 }
 json.dump(meta, open(os.path.join(d, "meta.json"), "w"), indent=1)
-print(pid, k, "check exit", c.returncode, "->", meta["expect"])
+print(pid, k, "check exit", c.returncode, "->", meta["expect"], "also caught by", sorted(others))
